@@ -189,6 +189,18 @@ def check_c20(root, pid, tier, seed, replay):
             stats['steps'] += len(lines)
             cfgs.append({'config': name, 'trace_lines': len(lines), 'identical_to_default_release': same, 'monitor_failures': nm})
         os.remove(cf)
+        # the library itself (not the harness, whose dev-style dependencies could hide a missing feature gate), hooks off,
+        # under every combination of its features: "builds without std and with every combination of its optional features"
+        lib = []
+        for mask in range(8):
+            feats = [f for k, f in enumerate(('std', 'serde', 'arbitrary')) if mask >> k & 1]
+            cmd = ['cargo', 'build', '--offline', '--lib', '--no-default-features', '--target-dir', os.path.join(root, '.cache', 'libmatrix')]
+            if feats:
+                cmd += ['--features', ','.join(feats)]
+            rc, out = lsv.sh(cmd, 900, cwd=lsv.REPO)
+            res.oblige('build: library, hooks off, features [%s]' % ','.join(feats), rc == 0, out[-1200:] if rc != 0 else '')
+            lib.append({'features': feats, 'built': rc == 0})
+        res.cov['library_feature_matrix'] = lib
         res.cov['configurations'] = cfgs
         res.cov['size_of_checks'] = 'const assertions of src/lib.rs:39-44 and src/repr.rs:35-40 hold in every configuration that built'
     return lsv.emit(root, res, st)
